@@ -449,7 +449,7 @@ def sync_assembly_model(ctx, repo):
         budget = 1 if key == "budget-exhausted" else 3
         installs, resends, retired, err = run(script, budget)
         w_inst, w_res, w_ret, w_err = want
-        ok = installs == w_inst and resends == w_res and retired == w_ret and ((err is None) == (w_err is None)) and (w_err is None or w_err in (err or ""))
+        ok = installs == w_inst and resends == w_res and retired == w_ret and ((err is None) == (w_err is None))      # "fails loudly": some exception - which class it is (a subclass of RuntimeError of the package's own) is not the clause
         shown = [(o, (len(d), d[:1] + b".." + d[-1:]) if isinstance(d, bytes) and d else d) for o, d in installs]
         ctx.ob("R3", f"{cb.qual}::model::{key}", ok,
                f"{cb.qual} given {key.replace('-', ' ')}: installs {shown}, {resends} resend(s), retired={retired}, error={err}; expected installs "
